@@ -36,6 +36,15 @@ type gstate struct {
 // snapshot returns a canonical description of all goroutines except the caller, and
 // whether any of them can move on its own (running / runnable / syscall / sleep).
 func snapshot() (canon string, movable bool, dump string) {
+	canon, movable, _, dump = snapshot2()
+	return
+}
+
+// snapshot2 also reports whether some goroutine sits in a system call. Such a goroutine may be blocked
+// for ever (a write(2) on a blocking descriptor whose peer does not read) or be in the middle of a long
+// transfer: it does not count as movable, but the caller then demands a much longer window of identical
+// samples before it declares the process quiescent.
+func snapshot2() (canon string, movable bool, inSyscall bool, dump string) {
 	buf := make([]byte, 1<<20)
 	for {
 		n := runtime.Stack(buf, true)
@@ -80,13 +89,15 @@ func snapshot() (canon string, movable bool, dump string) {
 			continue
 		}
 		switch st {
-		case "running", "runnable", "syscall", "sleep":
+		case "running", "runnable", "sleep":
 			movable = true
+		case "syscall":
+			inSyscall = true
 		}
 		gs = append(gs, m[1]+"|"+st+"|"+where)
 	}
 	sort.Strings(gs)
-	return strings.Join(gs, "\n"), movable, dump
+	return strings.Join(gs, "\n"), movable, inSyscall, dump
 }
 
 // idle whitelists goroutines that never take part in the system under test.
@@ -107,6 +118,8 @@ func idle(state, block string) bool {
 const (
 	interval = 200 * time.Millisecond
 	needed   = 14
+	// with a goroutine inside a system call: 50 identical samples (10 s) and a frozen progress counter
+	neededSyscall = 50
 )
 
 // Wait waits for done. It returns Returned when done is closed; Stuck (with the
@@ -132,14 +145,18 @@ func Wait(done <-chan struct{}, progress *int64, watchdog time.Duration) (Verdic
 			return Returned, ""
 		case <-t.C:
 		}
-		canon, movable, dump := snapshot()
+		canon, movable, inSyscall, dump := snapshot2()
 		var prog int64
 		if progress != nil {
 			prog = atomic.LoadInt64(progress)
 		}
 		if !movable && canon == last && prog == lastProg {
 			same++
-			if same >= needed {
+			need := needed
+			if inSyscall {
+				need = neededSyscall
+			}
+			if same >= need {
 				select {
 				case <-done:
 					return Returned, ""
@@ -186,8 +203,12 @@ func WaitFunc(cond func() bool, progress *int64, watchdog time.Duration) (Verdic
 func Quiescent(progress *int64) (bool, string) {
 	var last string
 	var lastProg int64 = -1
-	for k := 0; k < needed+1; k++ {
-		canon, movable, dump := snapshot()
+	need := needed
+	for k := 0; k < need+1; k++ {
+		canon, movable, inSyscall, dump := snapshot2()
+		if inSyscall {
+			need = neededSyscall
+		}
 		var prog int64
 		if progress != nil {
 			prog = atomic.LoadInt64(progress)
@@ -199,7 +220,7 @@ func Quiescent(progress *int64) (bool, string) {
 			return false, dump
 		}
 		last, lastProg = canon, prog
-		if k == needed {
+		if k == need {
 			return true, dump
 		}
 		time.Sleep(interval)
